@@ -1001,6 +1001,9 @@ void ReaderMgr::reset()
     // Reset all of the flags
     fThrowEOE = false;
 
+    // The XML version belongs to the document that was being read
+    fXMLVersion = XMLReader::XMLV1_0;
+
     // Delete the current reader and flush the reader stack
     delete fCurReaderData;
     fCurReaderData = 0;
